@@ -42,7 +42,7 @@ FIELDS = ("job_name", "job_id", "event_type", "event_id", "start_timestamp",
 
 
 # ---- running the real code -----------------------------------------------
-def run_real(docs, mapping, per_line, raw_unicode=False):
+def run_real(docs, mapping, per_line, raw_unicode=False, blank_tail=False):
     from tel2puml.otel_to_pv.data_sources.json_data_source.json_config import (
         JSONDataSourceConfig, OTelFieldMapping)
     from tel2puml.otel_to_pv.data_sources.json_data_source.json_datasource \
@@ -56,6 +56,8 @@ def run_real(docs, mapping, per_line, raw_unicode=False):
                 for doc in docs:
                     f.write(json.dumps(doc, ensure_ascii=not raw_unicode)
                             + "\n")
+                if blank_tail:
+                    f.write("\n")       # file ends with an empty line
             cfg = JSONDataSourceConfig(filepath=path, dirpath=None,
                                        json_per_line=True, field_mapping=fm)
         else:
@@ -98,7 +100,8 @@ def check_case(case):
         label = "per-line mode" if per_line else "whole-file mode"
         try:
             got = run_real(docs, mapping, per_line,
-                           bool(case.get("raw_unicode")))
+                           bool(case.get("raw_unicode")),
+                           bool(case.get("blank_tail")))
         except Exception as e:
             raise Violation(f"{label}: JSONDataSource raised "
                             f"{type(e).__name__}: {str(e)[:400]}")
@@ -147,6 +150,8 @@ def classify(case):
         classes.append("multi_doc")
     if case.get("raw_unicode"):
         classes.append("files_without_unicode_escapes")
+    if case.get("blank_tail"):
+        classes.append("per_line_file_ends_with_blank_line")
     seen = {}
     for spec in case["mapping"].values():
         for comp in refjq.normalise(spec):
@@ -361,6 +366,8 @@ def case_strategy():
         case = {"depth": depth, "docs": docs, "mapping": mapping}
         if draw(st.integers(0, 3)) == 0:
             case["raw_unicode"] = True      # files written without \u escapes
+        if draw(st.integers(0, 3)) == 0:
+            case["blank_tail"] = True       # per-line file ends in a blank line
         return case
 
     return build()
